@@ -11,7 +11,7 @@ C03 = ["P03_wire_is_a_sequence_of_complete_responses", "P03_every_request_gets_a
        "P03_response_is_delimited_by_its_own_headers", "P03_undelimitable_response_closes_the_connection",
        "P03_last_response_announces_connection_close", "P03_unannounced_close_means_next_request_is_served",
        "P03_http10_without_keepalive_is_closed", "P03_close_delimited_body_is_announced_and_closed", "P03_chunked_only_to_http11",
-       "P03_failure_after_the_head_closes_the_connection"]
+       "P03_failure_after_the_head_closes_the_connection", "P03_persistence_signal_is_unambiguous"]
 C08 = ["P08_offending_strings_are_refused_with_500", "P08_clean_strings_are_not_refused", "P08_only_CR_LF_in_the_head_are_line_terminators",
        "P08_refused_strings_are_never_emitted", "P08_each_application_field_is_one_head_line", "P08_other_head_lines_are_server_fields_only",
        "P08_status_line_carries_the_application_status"]
